@@ -157,6 +157,7 @@ Proof.
   intros (Hv & Hs & Hh & Hb). unfold apply_sd.
   destruct sd as [range|e|]; cbn [oresp_eqv]; [| repeat split; assumption | exact I].
   rewrite Hs, Hb.
+  destruct (rs_status c =? 304); [cbn [oresp_eqv]; repeat split; assumption|].
   destruct (apply_range checked range (rs_status c) (rs_body c)) as [g|e|]; cbn [oresp_eqv];
     [| apply resp_eqv_refl | exact I].
   repeat split; cbn [rs_version rs_status rs_headers rs_body]; try assumption.
